@@ -15,7 +15,7 @@ use crate::token::variance::natural::{
 };
 use crate::token::variance::ops::{Conjunction, Disjunction, Product};
 use crate::token::walk::{ChildToken, Fold, Forward, ParentToken, Sequencer};
-use crate::token::{Boundary, BranchKind, LeafKind};
+use crate::token::{Boundary, BranchKind, Composition, LeafKind, Token, TokenTopology};
 
 pub use Boundedness::{Bounded, Unbounded};
 
@@ -315,17 +315,48 @@ impl Sequencer for TreeExhaustiveness {
         &mut self,
         parent: ParentToken<'i, 't, A>,
     ) -> impl Iterator<Item = ChildToken<'i, 't, A>> {
-        parent.into_tokens().rev().take_while(|token| {
-            token.as_ref().as_leaf().map_or(true, |leaf| {
-                if let Some(Boundary::Separator) = leaf.boundary() {
+        fn is_unbounded_leaf(leaf: &LeafKind<'_>) -> bool {
+            if let Some(Boundary::Separator) = leaf.boundary() {
+                true
+            }
+            else {
+                let breadth = self::term::<Breadth>(leaf);
+                let text = self::term::<Text>(leaf);
+                breadth.is_unbounded() && text.is_unbounded()
+            }
+        }
+
+        fn is_unbounded<A>(token: &Token<'_, A>) -> bool {
+            match token.topology() {
+                TokenTopology::Leaf(ref leaf) => is_unbounded_leaf(leaf),
+                TokenTopology::Branch(ref branch) => {
+                    branch.tokens().into_inner().iter().all(is_unbounded)
+                },
+            }
+        }
+
+        // A bounded leaf token ends the sequence of its parent. A branch token that contains a
+        // bounded leaf token must end a conjunctive sequence too, because any terms that precede
+        // the branch do not reach the end of the expression through that leaf. Unlike a leaf, such
+        // a branch token is itself enqueued, because it may yet have exhaustive sub-sequences.
+        // Consider `**/{a,b/**}`.
+        let is_conjunctive = matches!(
+            parent.as_ref().composition(),
+            Composition::Conjunctive(_),
+        );
+        let mut is_terminated = false;
+        parent.into_tokens().rev().take_while(move |token| {
+            if is_terminated {
+                return false;
+            }
+            let token: &Token<'_, _> = token.as_ref();
+            match token.as_leaf() {
+                Some(leaf) => is_unbounded_leaf(leaf),
+                _ => {
+                    is_terminated = is_conjunctive && !is_unbounded(token);
                     true
-                }
-                else {
-                    let breadth = self::term::<Breadth>(leaf);
-                    let text = self::term::<Text>(leaf);
-                    breadth.is_unbounded() && text.is_unbounded()
-                }
-            })
+                },
+            }
         })
     }
 }
